@@ -4,9 +4,9 @@ import json,glob,os,re
 res={}
 for l in open('/verif/seeded/RESULTS.md'):
     p=[x.strip() for x in l.strip().strip('|').split('|')]
-    if len(p)>=5 and re.match(r'C\d\d-\d',p[0]): res[p[0]]=(p[3],p[4])
-print("| seed | change (site: what) | needs | detected (quick) | first rule |")
-print("|---|---|---|---|---|")
+    if len(p)>=6 and re.match(r'C\d\d-\d',p[0]): res.setdefault(p[0],[]).append((p[2],p[4],p[5]))
+print("| seed | change (site: what) | needs | detected by (quick tier): first rule |")
+print("|---|---|---|---|")
 for d in sorted(glob.glob('/verif/seeded/C*-*/')):
     n=os.path.basename(d.rstrip('/'))
     m=json.load(open(d+'meta.json'))
@@ -14,5 +14,5 @@ for d in sorted(glob.glob('/verif/seeded/C*-*/')):
     def short(s,k):
         s=' '.join(str(s).split()); s=s.replace('|','/')
         return s if len(s)<=k else s[:k-1].rsplit(' ',1)[0]+'…'
-    det,rule=res.get(n,('?',''))
-    print(f"| {n} | `{', '.join(files)}`: {short(m.get('summary',''),230)} | {short(m.get('needs',''),150)} | {det} | {rule} |")
+    det='; '.join(f"{ck}: {rule}" if d=='yes' else f"{ck}: **not detected**" for ck,d,rule in res.get(n,[])) or '?'
+    print(f"| {n} | `{', '.join(files)}`: {short(m.get('summary',''),230)} | {short(m.get('needs',''),150)} | {det} |")
